@@ -12,6 +12,7 @@ process (a panic kills the child and is reported with its case, a hang is report
 goroutines left behind by a census).  HTTP statuses x response bodies run against TiingoRepository
 through an in-process server.  Arbitrary byte strings are reached only through these renderings."""
 import json
+import re
 import time
 
 import vlib
@@ -78,9 +79,19 @@ def main():
         if len(samples) < 3 and ((c["kind"] == "csv" and len(c["recs"]) == 2 and c["out"]["rows"] == 1) or (c["kind"] == "json" and c["rows"] == 2)):
             samples.append(c)
     p = vlib.harness_cmd(["tiingo-http"], timeout=900)
-    if p.returncode != 0:
-        raise vlib.Machinery("tiingo-http failed: " + p.stderr[:800])
-    rep = json.loads(p.stdout)
+    if p.returncode != 0 and re.search(r"^(panic:|fatal error:)", p.stderr, re.M) and "cinar/indicator/v2/" in p.stderr:
+        # the process died inside library code (a panic in the reader goroutine cannot be recovered by the caller): a crash of the
+        # real code on the case in progress
+        last = [l for l in p.stderr.splitlines() if l.startswith("CASE ")]
+        what = (re.search(r"^(panic:.*|fatal error:.*)$", p.stderr, re.M).group(1))[:200]
+        V.violation({"reader": "tiingo", "symptom": "panics"},
+                    "TiingoRepository: the process dies in %s: %s" % (last[-1] if last else "an unknown case", what),
+                    {"case": last[-1] if last else None, "stderr": p.stderr[-2500:]})
+        rep = {"mismatches": [], "cases": len(last), "checks": len(last)}
+    elif p.returncode != 0:
+        raise vlib.Machinery("tiingo-http failed: " + p.stderr[-800:])
+    else:
+        rep = json.loads(p.stdout)
     for m in rep["mismatches"] or []:
         V.violation({"reader": "tiingo", "symptom": m["what"].split(" ")[1]}, "TiingoRepository: " + m["what"], {"mismatch": m})
     if model_panics and not real_panic:
@@ -99,7 +110,7 @@ def main():
         "distinct_nontrivial": len([c for c in cases if (c["kind"] == "csv" and c["recs"]) or (c["kind"] == "json" and c["toks"])]),
         "rule": "every sequence of 0..3 records of 1..3/4 cells over {ok, bad} for structs of 2-4 fields without header, every header "
                 "arrangement over the struct's columns plus an unknown one (length 1..3, duplicates allowed) x 0..2 records with header, "
-                "every JSON token sequence up to length 4/5; each rendered 4 (CSV) / 2 (JSON) ways; 9 HTTP statuses x 13 bodies; "
+                "every JSON token sequence up to length 4/5; each rendered 4 (CSV) / 2 (JSON) ways; 9 HTTP statuses x 19 bodies (incl. arrays with null / scalar / array elements); "
                 "non-trivial = non-empty input",
         "csv_json_cases": len(cases), "http_cases": rep["cases"], "exhaustive": True, "known_findings_hit": V.hit},
         time.time() - t0, len(V.new),
